@@ -169,6 +169,7 @@ def owner1(ctx, prog, cfg):
                   "be leaked or destroyed twice" % ([f["name"] + ": " + f["ty"] for f in fields], "a manual Drop impl" if ii.get("has_dtor") else "no Drop impl"),
                   "one field `inner: CircularBuffer<N, T>`, no Drop impl", cfg)
     c05.drn1_de(ctx, prog, cfg)
+    c05.shrink1(ctx, prog, cfg, "OWNER1")
     c05.destroy1(ctx, prog, cfg, "OWNER1")
     from . import c08
 
